@@ -120,6 +120,12 @@ RefPixelFail(e, x) ==
            \cup (IF e.before.d3[x[1]][x[2]] # NaN /\ ~(e.after.delta3[x[1]][x[2]] # NaN /\ e.after.delta3[x[1]][x[2]] <= 501) THEN {"half_sample_bound"} ELSE {})
            \cup (IF e.before.d3[x[1]][x[2]] # NaN /\ e.after.d3[x[1]][x[2]] # NaN
                      /\ ~(1000 * e.first - 1 <= e.after.d3[x[1]][x[2]] /\ e.after.d3[x[1]][x[2]] <= 1000 * last + 1) THEN {"in_interval"} ELSE {})
+           \* a received disparity strictly inside the FIRST half sample of the interval: whichever sample a reader associates with it
+           \* (the one below or the nearest one) is the first one, which sits on an end of the interval - the pixel must be left
+           \* where it was with bit 3 (there is no cost on its left to fit with)
+           \cup (IF e.before.d3[x[1]][x[2]] # NaN /\ e.before.d3[x[1]][x[2]] > 1000 * e.first + 2 /\ e.before.d3[x[1]][x[2]] < 1000 * e.first + 498
+                     /\ row[1] # NaN /\ ~(e.after.delta3[x[1]][x[2]] = 0 /\ av = bv \cup {3})
+                 THEN {"stopped_exactly_when"} ELSE {})
            \cup (IF IsNum(D) /\ D[2] = 1 /\ D[1] >= e.first /\ D[1] <= last /\ row[D[1] - e.first + 1] # NaN
                  THEN LET k == D[1] - e.first + 1
                           onEnd == (k = 1 \/ k = Len(row))
@@ -260,6 +266,8 @@ AggVerdict(e) ==
                             ELSE <<>>>>]
 
 \* ------------------------------------------------------------------ confidence measures (C12) --------
+\* an observed value that may enter integer arithmetic (neither a sentinel nor large enough to overflow 32 bits once multiplied)
+SmallNum(v) == v > -1000000 /\ v < 1000000
 \* e.method in {"ambiguity", "risk", "interval_bounds", "std_intensity"}; outputs in e.out (integers, see the driver)
 ConfPixelFail(e, x) ==
    LET row == IF e.method = "std_intensity" THEN <<>> ELSE Row(e, x[1], x[2])  allnan == FiniteIdx(row) = {}
@@ -268,6 +276,7 @@ ConfPixelFail(e, x) ==
              (IF ~(AmbLo(e, row) <= e.out.count[x[1]][x[2]] /\ e.out.count[x[1]][x[2]] <= AmbHi(e, row)) THEN {"ambiguity_integral"} ELSE {})
         [] e.method = "risk" ->
              IF allnan THEN (IF e.out.rmax[x[1]][x[2]] # NaN \/ e.out.rmin[x[1]][x[2]] # NaN THEN {"risk_nan_when_no_cost"} ELSE {})
+             ELSE IF ~(SmallNum(e.out.rmax[x[1]][x[2]]) /\ SmallNum(e.out.rmin[x[1]][x[2]])) THEN {"risk_ordered"}   \* NaN / not finite / absurd
              ELSE \* rmax / rmin = round(1000 * risk): |1000 * sum - out * K| <= K
                   (IF NoTie(e, row) /\ ~(Abs(1000 * RiskMaxSum(e, row) - e.out.rmax[x[1]][x[2]] * e.K) <= e.K) THEN {"risk_max"} ELSE {})
                   \cup (IF NoTie(e, row) /\ ~(Abs(1000 * RiskMinSum(e, row) - e.out.rmin[x[1]][x[2]] * e.K) <= e.K) THEN {"risk_min"} ELSE {})
@@ -282,7 +291,7 @@ ConfPixelFail(e, x) ==
              \* out.q = round(100 * std of the left window); std^2 = VarLN / n^2 (exact integers); NaN on the border
              LET q == e.out.q[x[1]][x[2]]  n == e.win * e.win
              IN IF ~WindowInside(e, x[1], x[2]) THEN (IF q # NaN THEN {"std_border_nan"} ELSE {})
-                ELSE IF q = NaN \/ q < 0 THEN {"std_intensity"}
+                ELSE IF ~SmallNum(q) \/ q < 0 THEN {"std_intensity"}
                 ELSE IF ~((IF q > 0 THEN (q - 1) * (q - 1) * n * n <= 10000 * VarLN(e, x[1], x[2]) ELSE TRUE)
                           /\ 10000 * VarLN(e, x[1], x[2]) <= (q + 1) * (q + 1) * n * n) THEN {"std_intensity"} ELSE {}
         [] OTHER -> {}
